@@ -103,13 +103,18 @@ def rule_a(ctx, ix, f):
     wc = [c for c in calls_in(g.node) if call_name(c) == 'AnyScalar']
     if len(wc) != 1:
         raise AnalysisError('bounds_for_cache: the wildcard substitution is not recognised')
-    from ..util import guard_chain as _gc
-    pmg = parent_map(g.node)
-    tests = ' and '.join(unparse(t.test) for t, br in _gc(pmg, wc[0], g.node) if isinstance(t, ast.If) and br == 'body')
-    ctx.ob(R, g.construct, 'only scalar bounds of non-contributing axes become wildcards', 'isscalar(' in tests and 'not in' in tests,
+    from .. import cond
+    # the condition under which the wildcard is produced (if-statement, conditional expression or comprehension filter alike)
+    pc = cond.expr_condition(g.node, wc[0])
+    ats = cond.atoms(pc)
+    scalar = [a for a in ats if 'isscalar(' in a]
+    member = [a for a in ats if a.startswith('in|') and a.endswith('|%s' % g.params[1])]
+    okw = bool(scalar) and bool(member) and all(cond.implies(pc, cond.T(a)) for a in scalar) and \
+        all(cond.implies(pc, cond.Not(cond.T(a))) for a in member)
+    ctx.ob(R, g.construct, 'only scalar bounds of non-contributing axes become wildcards', okw,
            detail='bounds_for_cache substitutes the wildcard under `%s`: a ranged bound on a non-contributing axis is stored as a '
                   'wildcard, and a later request with a scalar there is answered with the array of the ranged request (another shape)'
-                  % tests, where=g.where)
+                  % (pc,), where=g.where)
     for st in keys:
         ctx.ob(R, f.construct + ' bounds slot', 'bounds is the second element of the key (the slot the wildcard replaces)',
                unparse(st.value.elts[1]) == 'bounds', detail='bounds is not at index 1 of %s' % unparse(st.value), where=where(f, st),
@@ -207,21 +212,37 @@ def rule_c(ctx, ix, f):
                  and 'data.shape[ipix]' in unparse(st.value) for st in use[0].orelse)
         ctx.ob(R, f.construct + ' bounds check', 'invalid = (coord < 0) | (coord >= size of that axis of the source)', ok,
                detail='the out-of-range test of the uncached branch is not (coord < 0) | (coord >= data.shape[ipix])', where=where(f, use[0]))
+    from ..util import expand_locals, element_cases
+    from .. import cond
     app = [st for st in walk_no_nested(f.node) if isinstance(st, ast.Assign) and unparse(st.targets[0]) == 'array[invalid_all]']
-    drop = [st for st in walk_no_nested(f.node) if isinstance(st, ast.Assign) and unparse(st.targets[0]) == 'array'
-            and unparse(st.value) == 'array[tuple(slices)]']
-    ok = len(app) == 1 and len(drop) == 1 and app[0].lineno < drop[0].lineno and unparse(app[0].value) == 'invalid_value'
+    # the statement that drops the scalar dimensions: array = array[<one index per bound>]
+    drop = []
+    for st in walk_no_nested(f.node):
+        if isinstance(st, ast.Assign) and unparse(st.targets[0]) == 'array' and isinstance(st.value, ast.Subscript) \
+                and unparse(st.value.value) == 'array':
+            idx = st.value.slice
+            if isinstance(idx, ast.Call) and isinstance(idx.func, ast.Name) and idx.func.id in ('tuple', 'list') and len(idx.args) == 1:
+                idx = idx.args[0]
+            ec = element_cases(f.node, idx)
+            if ec is not None and ec[0] == 'bounds':
+                drop.append((st, ec))
+    ok = len(app) == 1 and len(drop) == 1 and app[0].lineno < drop[0][0].lineno and unparse(app[0].value) == 'invalid_value'
     ctx.ob(R, f.construct + ' apply', 'invalid samples are reset before the scalar dimensions are dropped', ok,
            detail='array[invalid_all] = invalid_value is missing or comes after the scalar dimensions were dropped (shapes differ)', where=f.where)
-    dl = [n for n in walk_no_nested(f.node) if isinstance(n, ast.For) and unparse(n.iter) == 'bounds' and
-          any(call_name(c) == 'append' and 'slices' in unparse(c.func) for c in calls_in(n))]
-    if len(dl) == 1:
-        t = [n for n in dl[0].body if isinstance(n, ast.If)]
-        ok2 = len(t) == 1 and unparse(t[0].test).replace(' ', '') == 'isinstance(bound,tuple)' and \
-            'slice(None)' in unparse(t[0].body[0]) and unparse(t[0].orelse[0]).replace(' ', '') == 'slices.append(0)'
+    if len(drop) == 1:
+        st, (src, tgt, cases, filtered) = drop[0]
+        ranged = cond.formula(ast.parse('isinstance(%s, tuple)' % tgt, mode='eval').body)
+        want = {'slice(None)': ranged, '0': cond.Not(ranged)}
+        got = {}
+        for c, v in cases:
+            got.setdefault(unparse(v), []).append(c)
+        ok2 = not filtered and set(got) == set(want) and \
+            all(cond.equivalent(cond.restrict(cond.Or(*got[k]), lambda a: a in cond.atoms(ranged)), want[k]) for k in want)
         ctx.idiom(R, f.construct + ' drop', 'ranged bounds keep their dimension, scalar bounds are dropped', accepted=ok2,
-                  absent=len(t) != 1, detail_absent='the dimension-dropping loop no longer distinguishes ranged and scalar bounds',
-                  shape=unparse(dl[0])[:200], where=where(f, dl[0]))
+                  absent=filtered or set(got) != set(want),
+                  detail_absent='the dimension-dropping index no longer keeps exactly the ranged bounds and drops exactly the scalar ones '
+                                '(found: %s)' % {k: str(v) for k, v in got.items()},
+                  shape=unparse(st)[:200], where=where(f, st))
     vals = {}
     for st in ast.walk(f.node):
         if isinstance(st, ast.Assign) and unparse(st.targets[0]) == 'invalid_value':
